@@ -175,11 +175,11 @@ def c16_job(conv, op, pops=0, timeout=900, witness=False):
 
 
 def c16_quick(seed):
-    jobs = [c16_job("pairs", op) for op in range(7)]
-    jobs.append(c16_job("pairs", 2, witness=True))
-    # whole-item convention: the seed picks which three operations the quick tier decides
-    ops = [(seed + i) % 7 for i in (0, 2, 4)]
-    jobs += [c16_job("whole", op) for op in sorted(set(ops + [2]))]
+    # 9 jobs (the harness limit for a quick run is ~15 min; 14 parallel jobs took 937 s):
+    # the five mutating operation kinds + find for the pairs convention, two kinds (seed-rotated) for whole items
+    jobs = [c16_job("pairs", op) for op in (0, 2, 3, 4, 6)]
+    ops = [[2, 4], [0, 3], [6, 4], [2, 3]][seed % 4]
+    jobs += [c16_job("whole", op) for op in ops]
     jobs.append(Job("deque", "c16::c16_push_not_greater_panics_pairs", kind="must_panic", note="assertion failed: self.marker.cmp", timeout=300, mem_gb=4,
                     bounds="pairs: every live item not greater than the last must panic"))
     jobs.append(Job("deque", "c16::c16_push_not_greater_panics_whole", kind="must_panic", note="assertion failed: self.marker.cmp", timeout=300, mem_gb=4,
@@ -204,7 +204,7 @@ def c16_thorough(seed):
 reg(Prop(
     "C16", "SortedDeque vs reference ordered map",
     quick=c16_quick, thorough=c16_thorough,
-    bounds_quick="one step from every valid physical layout of <= 5 items (symbolic strictly increasing u8 keys, symbolic tombstones, live ends): each of 7 operation kinds as its own job (operation KIND enumerated, all data symbolic) for the (key, Option<value>) convention, 4 kinds (seed-rotated) for the whole-item convention, plus pop_last after two pop_first; must-panic harnesses for both conventions",
+    bounds_quick="one step from every valid physical layout of <= 5 items (symbolic strictly increasing u8 keys, symbolic tombstones, live ends): operation kinds push / remove / pop_first / pop_last / remove+find+remove, each as its own job (operation KIND enumerated, all data symbolic) for the (key, Option<value>) convention, 2 kinds (seed-rotated) for the whole-item convention; must-panic harnesses for both conventions",
     bounds_thorough="all 7 operation kinds x {0,1,2} preceding pop_first calls x both conventions",
     outside=["more than 5 physical items", "comparator objects other than ()", "key types other than u8",
              "operation kind is enumerated per job (a symbolic kind ran out of memory); the layout, keys, values, tombstones and arguments are symbolic"],
@@ -239,6 +239,8 @@ def c11_layout(n, ctor, timeout=1500, witness=False):
     allowed = set()
     if ctor == 2:
         allowed.add("unsorted input")
+    if n < 2:
+        allowed |= {"repeated tag: ties keep insertion order", "unsorted input", "empty first value (offset 0 repeated)"}
     return Job("tlv", "c11::c11_layout_n%d_%s%s" % (n, cname, "_witness" if witness else ""), timeout=timeout, mem_gb=10,
                covers=allowed, kind="witness" if witness else "proof",
                bounds="N=%d pairs, constructor %s, symbolic u32 tags (ties included), value lengths 0..2, symbolic bytes; array sink; MessageView round trip" % (n, cname))
@@ -320,18 +322,23 @@ def c14_k(name, timeout=1800, witness=False, allowed=()):
                bounds="VouchedTime::new through the public API: concrete calendar minute, symbolic second/nanosecond, symbolic u64 base time, voucher produced for a symbolic (possibly different) value")
 
 
-C14_BEFORE = {"accepted at the forward edge", "accepted at the backward edge", "rejected one past the forward edge"}
-C14_LAST = set()
+C14_ALL = {"accepted at the forward edge", "accepted at the backward edge", "rejected one past the forward edge", "rejected one past the backward edge"}
+C14_FWD = {"accepted at the backward edge", "rejected one past the backward edge"}
+C14_BACK = {"accepted at the forward edge", "rejected one past the forward edge"}
+
+C14_K = [c14_k("c14_new_epoch_minute", allowed=C14_FWD), c14_k("c14_new_epoch_minute_back", allowed=C14_BACK)]
+C14_K_MORE = [c14_k("c14_new_before_epoch_minute", allowed=C14_ALL), c14_k("c14_new_2024_minute", allowed=C14_FWD),
+              c14_k("c14_new_2024_minute_witness", witness=True), c14_k("c14_new_2024_wrong_voucher", allowed=C14_ALL - {"rejected one past the forward edge"}),
+              c14_k("c14_new_last_minute", allowed=C14_BACK)]
 
 p14 = Prop(
     "C14", "VouchedTime window",
-    quick=[smtengine.C14Kernel(), smtengine.C14Compose(), c14_k("c14_new_epoch_minute")],
-    thorough=[smtengine.C14Kernel(), smtengine.C14Compose(), c14_k("c14_new_epoch_minute"), c14_k("c14_new_before_epoch_minute", allowed=C14_BEFORE),
-              c14_k("c14_new_2024_minute"), c14_k("c14_new_2024_minute_witness", witness=True), c14_k("c14_new_last_minute")],
-    bounds_quick="window kernel: all 2^128 x 2^64 (local ms, base ms) inputs, no bound; composition with the voucher verdict and the ns->ms conversion: all representable local times at ns resolution; public constructor: the calendar minute 1970-01-01 00:00 with symbolic seconds/nanoseconds/base/voucher",
-    bounds_thorough="as quick plus the calendar minutes 1969-12-31 23:59, 2024-04-13 17:00, 9999-12-31 23:59 through the public constructor",
+    quick=[smtengine.C14Kernel(), smtengine.C14Compose()] + C14_K + [C14_K_MORE[2], C14_K_MORE[3]],
+    thorough=[smtengine.C14Kernel(), smtengine.C14Compose()] + C14_K + C14_K_MORE,
+    bounds_quick="window kernel: all 2^128 x 2^64 (local ms, base ms) inputs, no bound; composition with the voucher verdict and the ns->ms conversion: all representable local times at ns resolution x all u64 base times; public constructor new/get_local_time: calendar minutes 1970-01-01 00:00 and 2024-04-13 17:00 with symbolic second and nanosecond, concrete base times placed so that both window edges fall inside the minute, right and wrong voucher",
+    bounds_thorough="as quick plus the calendar minutes 1969-12-31 23:59 and 9999-12-31 23:59",
     outside=["the `time` crate's calendar conversion outside the listed minutes (Engine M treats unix_timestamp_nanos as an arbitrary i128 in the calendar range)",
-             "raffle's voucher arithmetic (arbitrary Bool in Engine M; executed for real in the Kani harnesses)",
+             "raffle's voucher arithmetic on symbolic operands (arbitrary Bool in Engine M; concrete operands in the Kani harnesses: symbolic operands did not finish in 50 minutes)",
              "VouchedTime::now (passes the clock value straight to `new`; not encoded)"],
     trusted=["MIR -> SMT-LIB translator lib/mir.py (validated on every run against the repository's 17 boundary vectors)", "z3 4.8.12 and cvc5 1.0 (must agree on every query)"],
 )
@@ -343,21 +350,31 @@ reg(p14)
 # ---------------------------------------------------------------------------
 # C08 — StreamChunker (one inductive pump step from an arbitrary chunker state, hook H5)
 
-def c08_job(S, block, witness=False, timeout=1500):
+C08_COVERS = ["data split right before a held-back FE", "data chunk ending in FE (no FD follows)", "carried FE completed by FD from the reader",
+              "end of stream", "full carry-over buffer", "short reads and an interrupted call"]
+
+
+def c08_job(S, block, witness=False, timeout=1500, sched=2):
     m = max(block, 2)
-    return Job("stream", "c08::c08_step_s%d_b%d%s" % (S, block, "_witness" if witness else ""),
-               unwind_fns={r"StreamChunker::pump": 3, r"ByteArena::read_n_impl": 6, r"find_stuff_sequence": m + 1},
-               timeout=timeout, mem_gb=14, kind="witness" if witness else "proof", stubbing=True,
-               bounds="io_block_size=%d; arbitrary chunker state (carry-over buffer of 0..%d arbitrary bytes, arbitrary offset <= 2^48), remaining stream so that buffer+rest <= %d bytes, reader schedule: 2 symbolic calls (short reads of 1..3 bytes, <=1 interrupted) then full reads; 8-byte arena chunks" % (block, m, S),
+    prefix = {2: "c08_step", 1: "c08_q", 0: "c08_q0"}[sched]
+    allowed = set() if sched >= 2 else set(C08_COVERS) - {"carried FE completed by FD from the reader"}
+    sched_txt = {2: "2 symbolic calls (short reads of 1..3 bytes, <=1 interrupted) then full reads", 1: "1 symbolic call (short read of 1..3 bytes or an interrupted call) then full reads",
+                 0: "full reads"}[sched]
+    return Job("stream", "c08::%s_s%d_b%d%s" % (prefix, S, block, "_witness" if witness else ""),
+               unwind_fns={r"StreamChunker::pump": 3, r"ByteArena::read_n_impl": sched + 4, r"find_stuff_sequence": m + 1},
+               timeout=timeout, mem_gb=14, kind="witness" if witness else "proof", stubbing=True, covers=allowed,
+               bounds="io_block_size=%d; arbitrary chunker state (carry-over buffer of 0..%d arbitrary bytes, arbitrary offset <= 2^48), remaining stream so that buffer+rest <= %d bytes, reader schedule: %s; 8-byte arena chunks" % (block, m, S, sched_txt),
                **ARENA8)
 
 
 reg(Prop(
     "C08", "StreamChunker tiles the stream",
-    quick=[c08_job(4, 0), c08_job(4, 2), c08_job(5, 3), c08_job(6, 4), c08_job(5, 3, witness=True)],
+    # quick: two jobs (a job takes ~8-10 min and the quick budget is 15 min): block 0 (clamped to 2) with one symbolic
+    # reader event, block 4 with full reads; the 2-event schedules and the other block sizes are in the thorough tier
+    quick=[c08_job(4, 0, sched=1, timeout=800), c08_job(6, 4, sched=0, timeout=800)],
     thorough=[c08_job(4, 0), c08_job(4, 1), c08_job(4, 2), c08_job(5, 3), c08_job(5, 3, witness=True), c08_job(6, 4),
               c08_job(6, 2, timeout=2400), c08_job(6, 3, timeout=2400), c08_job(8, 5, timeout=3000), c08_job(8, 6, timeout=3000)],
-    bounds_quick="one pump step from EVERY chunker state satisfying the carry-over invariant, io_block_size in {0,2,3,4} (concrete per job), logical remaining stream (carry-over + unread) <= 4..6 arbitrary bytes; by induction this covers pump sequences of any length whose per-step window fits the bound",
+    bounds_quick="one pump step from EVERY chunker state satisfying the carry-over invariant: io_block_size 0 (clamped to 2) with remaining stream <= 4 bytes and one symbolic reader event (short read or interrupted call), io_block_size 4 with remaining stream <= 6 bytes and full reads; by induction this covers pump sequences of any length whose per-step window fits the bound",
     bounds_thorough="io_block_size in {0,1,2,3,4,5,6}, remaining stream <= 4..8 bytes",
     outside=["block sizes above 6 and the 512 KiB default (the block size is concrete per job: a symbolic size makes the arena allocation size symbolic)",
              "hard I/O errors (the property quantifies over short reads and interrupted calls)", "more than one interrupted call within one pump",
@@ -393,3 +410,111 @@ p18 = Prop("C18", "readers and try_update never wait",
 p18.engine = "mir-wmm-smt"
 p18.technique = p13.technique
 reg(p18)
+
+
+# ---------------------------------------------------------------------------
+# C19 — NFS voucher module with stubbed file system and clocks
+
+C19_STUBS = ["std::fs::File::metadata -> Ok(zeroed Metadata)", "MetadataExt::{dev,ctime,ctime_nsec} -> symbolic values chosen by the harness for the file being touched",
+             "std::fs::File::set_times -> Ok(())", "std::fs::OpenOptions::open -> a File over a dummy descriptor", "<OwnedFd as Drop>::drop -> no-op",
+             "std::time::Instant::now -> a fixed instant", "std::time::SystemTime::now -> epoch + 5000 s"]
+
+
+def c19_job(name, allowed=(), timeout=1500):
+    return Job("vouched", "c19::" + name, stubbing=True, timeout=timeout, mem_gb=10, covers=set(allowed),
+               bounds="module calls as named; symbolic u64 device ids; change times from {1000..1003 s} x {1 ms, 999 ms}; process-wide statics start from their initial values")
+
+
+p19 = Prop(
+    "C19", "NFS base time forward only, trusted devices only",
+    quick=[c19_job("c19_untrusted_before_any_trust"), c19_job("c19_trust_then_observe"), c19_job("c19_observe_twice"),
+           c19_job("c19_get_base_time_scans_trusted_paths"), c19_job("c19_maybe_observe_file_time"), c19_job("c19_scan_base_time")],
+    thorough=[c19_job("c19_untrusted_before_any_trust"), c19_job("c19_trust_then_observe"), c19_job("c19_observe_twice"),
+              c19_job("c19_get_base_time_scans_trusted_paths"), c19_job("c19_maybe_observe_file_time"), c19_job("c19_scan_base_time")],
+    bounds_quick="histories of <= 3 module calls: {observe before any trust}; {add_trusted_path, observe}; {add_trusted_path, observe, observe}; {add_trusted_path, get_base_time(now past the threshold)}; {add_trusted_path, maybe_observe_file_time | scan_base_time}; device ids fully symbolic (trusted / untrusted / path moved to another device), change times from an 8-value domain covering older / equal / newer",
+    bounds_thorough="same as quick",
+    outside=["real file systems (every fs/clock call is a stub; the stub list is part of the claim)", "change times outside the 8-value domain (the voucher computation on fully symbolic times did not finish in 50 minutes)",
+             "concurrent callers (C13/C18 cover the shared cell)", "RwLock poisoning; I/O errors from stat/open/touch"],
+    assumptions=["stubs: " + "; ".join(C19_STUBS), "stat(2) contract: ctime >= 0, 0 <= nsec < 10^9"],
+)
+p19.technique = "bounded model checking (Kani/CBMC/SAT) of the real nfs_voucher module with the file system and clocks replaced by nondeterministic stubs (-Z stubbing)"
+reg(p19)
+
+
+# ---------------------------------------------------------------------------
+# OwningIovec skeleton family (C03, C04, C05, C10, C20)
+
+ARENA4 = dict(cfgs=("woodpile_verif", "woodpile_verif_arena"), env={"WOODPILE_VERIF_ARENA_CHUNK": "4,0", "WOODPILE_VERIF_COPY_LIMITS": "1,3"})
+IOV_UW = {"swap_nonoverlapping": 40, "Chunk as .*Drop.*drop": 6, "find_hint_size": 10}
+IOV_DESC = {
+    "k1_patch_merge_consume": "push_borrowed(2), register_patch(1), push_copy(3) merging into the placeholder's slice, consume(k), backfill, consume(k2)",
+    "k2_merge_regrow_advance": "push_copy(2)+push_copy(2) merged, push_copy(3) into a new chunk, advance_slices(n) inside the merged slice, push(1), consume(k)",
+    "k3_anchored_push_flush": "push_copy(2), arena read_n(3) -> components -> push_borrowed + push_anchor, flush_cache, consume(k)",
+    "k4_fill_order_0132": "four placeholders in flight, backfilled in the order 0,1,3,2 (the F2 shape), consume(k)",
+    "k4_fill_order_3210": "four placeholders in flight, backfilled in the order 3,2,1,0, consume(k)",
+    "k4_fill_order_1302": "four placeholders in flight, backfilled in the order 1,3,0,2, consume(k)",
+    "k5q_clear_resets_accounting": "push_copy(3), consume(k), clear, push_borrowed(2)",
+    "k5_clear_then_reuse": "push_copy(3), push_borrowed(2), consume(k), register_patch(1), clear, push_copy(3), consume(k2)",
+    "k6q_take_moves_pending_placeholder": "push_borrowed(2), register_patch(1), take(); source empty and usable; backfill through the taken value",
+    "k6_take_with_pending_placeholder": "push_copy(2), register_patch(1), take(), push_borrowed on the source, backfill + consume(k) on the taken value",
+    "k7q_clone_survives_drain_and_refill": "push_copy(3), clone, drain the original, push_copy(2) on the original; the clone still shows its bytes",
+    "k7_clone_drain_refill_original": "push_copy(3), clone, consume(k), push_copy(2), register_patch+backfill on the original; clone unchanged",
+    "k7b_clone_then_mutate_clone": "push_copy(2), clone, push_borrowed(2) on the clone, push_copy(1) merging in place on the original, consume(k) on the clone",
+    "k8q_consume_clamped_to_stable_prefix": "push_borrowed(2), register_patch(1), push_borrowed(1), consume(k) with unconstrained k, backfill",
+    "k8_overasking_consumers_with_pending": "push_borrowed(2), register_patch(2), push_borrowed(2), consume(k), backfill, consume(k2)",
+    "k8b_byte_drain_before_merged_placeholder": "push_copy(2), register_patch(1) merged into the same slice, advance_slices(n), push_copy(1), backfill",
+    "k8c_overasking_advance_with_pending": "push_borrowed(2), register_patch(1), advance_slices(n) with unconstrained n, backfill",
+    "k9_read_extend_pop": "extend([2 bytes, empty, 3 bytes]), push_copy(1), Read::read into a buffer of symbolic length <= 4, pop_front",
+    "k11q_drop_restores_counters": "push_copy(3) x2 (two chunks), consume(k), drop: live chunk/byte counters return to their start values",
+    "k11_drop_orders_restore_counters": "two chunks, clone, consume(k), take_arena, drop {iovec, clone, arena} in a symbolic order: counters restored",
+    "k12_clear_releases_chunks": "push_copy(3), clear, flush_cache: no chunk stays pinned; reuse; drop",
+    "k13_anchored_slice_outlives_arena": "read_n(4), split_at(symbolic), clone, drop the arena, skip_prefix/drop_suffix/take, read every byte, drop in stages",
+}
+
+
+def iov_job(name, timeout=1200, mem=16):
+    return Job("iovec", "skel::" + name, unwind_fns=IOV_UW, timeout=timeout, mem_gb=mem, stubbing=True,
+               bounds="skeleton: " + IOV_DESC[name] + "; concrete operation kinds and slice lengths, symbolic bytes / counts / probe position; 4-byte arena chunks, copy thresholds 1/3",
+               **ARENA4)
+
+
+IOV_OUTSIDE = ["operation kinds and slice lengths are concrete per skeleton (symbolic kinds or lengths exhausted 24 GB): the skeleton list is the claim",
+               "histories longer than the skeletons; slices longer than 3 bytes; the production thresholds 64 / 256 / 4096 themselves (hook H2 shrinks them)",
+               "two arena-copying OwningIovecs inside one harness (a CBMC pointer-provenance artifact makes such harnesses fail spuriously; clones and taken values only use borrowed pushes)",
+               "uninitialised-memory reads (Kani's -Z uninit-checks crashes); allocation failure"]
+IOV_ASSUME = ["hook H2: 4-byte arena chunks (constant sequence), copy thresholds SMALL_COPY=1 / MAX_OPPORTUNISTIC_COPY=3 (cfg woodpile_verif_arena)"]
+
+reg(Prop("C03", "OwningIovec FIFO pipe",
+         quick=[iov_job("k3_anchored_push_flush"), iov_job("k5q_clear_resets_accounting"), iov_job("k8q_consume_clamped_to_stable_prefix"), iov_job("k7q_clone_survives_drain_and_refill")],
+         thorough=[iov_job(n, 3000, 24) for n in ("k1_patch_merge_consume", "k2_merge_regrow_advance", "k3_anchored_push_flush", "k5q_clear_resets_accounting", "k5_clear_then_reuse",
+                                                    "k8q_consume_clamped_to_stable_prefix", "k8_overasking_consumers_with_pending", "k9_read_extend_pop")],
+         bounds_quick="4 skeletons of 3-5 operations (anchored push + flush, clear + reuse, over-asking consume with a pending placeholder, clone/drain/refill); after the operations the whole read side is compared with a shadow buffer at a symbolic position, total_size/len/return values checked exactly",
+         bounds_thorough="8 skeletons incl. merge + regrowth + partial byte consumption, Read::read, extend, pop_front",
+         outside=IOV_OUTSIDE, assumptions=IOV_ASSUME))
+reg(Prop("C04", "pending backpatches invisible",
+         quick=[iov_job("k8q_consume_clamped_to_stable_prefix"), iov_job("k6q_take_moves_pending_placeholder"), iov_job("k8b_byte_drain_before_merged_placeholder")],
+         thorough=[iov_job(n, 3000, 24) for n in ("k1_patch_merge_consume", "k8q_consume_clamped_to_stable_prefix", "k8_overasking_consumers_with_pending", "k8b_byte_drain_before_merged_placeholder",
+                                                    "k8c_overasking_advance_with_pending", "k6q_take_moves_pending_placeholder", "k4_fill_order_0132", "k4_fill_order_3210", "k4_fill_order_1302")],
+         bounds_quick="3 skeletons with one placeholder in flight: over-asking slice consumer, byte drain just before a placeholder merged into a partially consumable slice, take() with a pending placeholder; stable prefix never reaches the earliest pending placeholder, iovs()/has_pending_backrefs agree, after the backfill everything is consumable with the filled value",
+         bounds_thorough="plus four placeholders in flight filled in three out-of-order permutations and the two-byte placeholder skeletons",
+         outside=IOV_OUTSIDE + ["more than 4 placeholders in flight (a tombstone-scan defect that needs 5 is outside)"], assumptions=IOV_ASSUME))
+reg(Prop("C05", "exposed slices point into live memory",
+         quick=[iov_job("k13_anchored_slice_outlives_arena"), iov_job("k3_anchored_push_flush"), iov_job("k7q_clone_survives_drain_and_refill"), iov_job("k12_clear_releases_chunks")],
+         thorough=[iov_job(n, 3000, 24) for n in ("k13_anchored_slice_outlives_arena", "k3_anchored_push_flush", "k7q_clone_survives_drain_and_refill", "k7b_clone_then_mutate_clone",
+                                                    "k12_clear_releases_chunks", "k11q_drop_restores_counters", "k1_patch_merge_consume", "k6q_take_moves_pending_placeholder")],
+         bounds_quick="CBMC's pointer checks (deallocated / dead object, out-of-bounds, invalid pointer) on every dereference, with every exposed byte read at a symbolic position after the operations of 4 skeletons: AnchoredSlice parts outliving their arena, anchored push + cache flush, clone sharing a chunk with a drained-and-refilled original, clear + flush + reuse + real drop",
+         bounds_thorough="8 skeletons",
+         outside=IOV_OUTSIDE + ["StreamChunker/StreamReader/Encoder/Decoder anchored input is covered by the C08 / C06 / C01 harness families' own pointer checks, not here"], assumptions=IOV_ASSUME))
+reg(Prop("C10", "arena memory reclaimed",
+         quick=[iov_job("k12_clear_releases_chunks"), iov_job("k11q_drop_restores_counters")],
+         thorough=[iov_job(n, 3000, 24) for n in ("k12_clear_releases_chunks", "k11q_drop_restores_counters", "k11_drop_orders_restore_counters")],
+         bounds_quick="2 skeletons that end in real drops and compare ByteArena::num_live_chunks/bytes with their starting values: clear + flush releases every chunk; two chunks, consume(k), drop",
+         bounds_thorough="plus clone + take_arena dropped in a symbolic order",
+         outside=IOV_OUTSIDE + ["the bounded-footprint-while-streaming half of the property (needs long Encoder/Decoder/StreamReader histories, beyond what CBMC finished here)"], assumptions=IOV_ASSUME))
+reg(Prop("C20", "clone / take independence",
+         quick=[iov_job("k6q_take_moves_pending_placeholder"), iov_job("k7q_clone_survives_drain_and_refill"), iov_job("k7b_clone_then_mutate_clone")],
+         thorough=[iov_job(n, 3000, 24) for n in ("k6q_take_moves_pending_placeholder", "k6_take_with_pending_placeholder", "k7q_clone_survives_drain_and_refill", "k7_clone_drain_refill_original",
+                                                    "k7b_clone_then_mutate_clone")],
+         bounds_quick="3 skeletons: take() with a pending placeholder (source empty and usable, backfill through the taken value); clone then drain + refill the original; clone, borrowed push + consume on the clone while the original merges a copy in place",
+         bounds_thorough="5 skeletons",
+         outside=IOV_OUTSIDE, assumptions=IOV_ASSUME))
